@@ -331,6 +331,10 @@ func ruleResultIndex(r *Run) {
 		}
 		for _, v := range cands {
 			v = unwrap(v)
+			if helperSetsIndex(r, v, idxParam) {
+				r.OK(rule, name, "Result.index", site, "the Result is built by a helper that stores the operation index it is given into index on every return")
+				continue
+			}
 			st := indexField(v)
 			if st == nil || !instrDominates(st, ret) {
 				r.Bad(rule, name, "Result.index", site, "a Result is returned whose index field is not set from the closure's operation index on this path: the reducer would place it in slot 0 (overwriting another operation's result) and leave its own slot null")
@@ -634,4 +638,53 @@ func ruleWholeBodyDecode(r *Run) {
 		}
 	}
 	r.AtLeast(rule, "JSON decodes of the request body", n, 3)
+}
+
+// helperSetsIndex: v is the result of a call to a module function that, on every return,
+// yields a freshly built Result whose index field is stored from the parameter that receives
+// the closure's operation index at this call.
+func helperSetsIndex(r *Run, v ssa.Value, idx *ssa.Parameter) bool {
+	c, ok := v.(*ssa.Call)
+	if !ok {
+		return false
+	}
+	sc := c.Call.StaticCallee()
+	if sc == nil {
+		return false
+	}
+	f := r.P.declared(sc)
+	if !inModule(f) || f.Blocks == nil {
+		return false
+	}
+	pi := -1
+	for i, a := range c.Call.Args {
+		if unwrap(a) == ssa.Value(idx) {
+			pi = i
+		}
+	}
+	if pi < 0 || pi >= len(f.Params) {
+		return false
+	}
+	for _, ret := range returnsOf(f) {
+		rv := unwrap(retVals(ret)[0])
+		al, ok := rv.(*ssa.Alloc)
+		if !ok {
+			return false
+		}
+		set := false
+		for _, ins := range allInstrs(f) {
+			st, ok := ins.(*ssa.Store)
+			if !ok {
+				continue
+			}
+			fa, ok := st.Addr.(*ssa.FieldAddr)
+			if ok && fa.X == ssa.Value(al) && fieldOf(fa) != nil && fieldOf(fa).Name() == "index" && unwrap(st.Val) == ssa.Value(f.Params[pi]) && instrDominates(st, ret) {
+				set = true
+			}
+		}
+		if !set {
+			return false
+		}
+	}
+	return true
 }
